@@ -956,14 +956,21 @@ class Interp:
     def explore(self, run_path):
         """run_path(interp) executes one path from the start and returns an outcome; explores all decision vectors.
         Yields (path, outcome) where outcome is ('return', value) | ('raise', SObj)."""
+        import os
+        import time as _time
         self.pending = [[]]
         n = 0
+        # wall-clock budget per case: a change that makes the path count explode ends as "undecided", not as a check that hangs
+        limit = float(os.environ.get("PYVC_CASE_SECONDS", "0") or 0) or (150.0 if getattr(self, "tier", "quick") == "quick" else 1500.0)
+        t_end = _time.time() + limit
         while self.pending:
             dec = self.pending.pop()
             self.path = Path(dec)
             n += 1
             if n > self.MAX_PATHS:
                 raise Unsupported(f"more than {self.MAX_PATHS} paths")
+            if n % 16 == 0 and _time.time() > t_end:
+                raise Unsupported(f"time budget of {int(limit)} s per case exceeded after {n} paths")
             try:
                 out = run_path(self)
             except Infeasible:
